@@ -294,6 +294,51 @@ def long_arrays(sx, p):
     return sx.And(out.a == 7, *[sx.eq(got[j].v, sx.digits_value(vals[j])) for j in range(n)])
 
 
+class TwoArrays(ComplexModel):
+    __namespace__ = 'tns'
+    xs = Array(Inner)
+    ys = Array(Inner)
+    zs = Inner.customize(max_occurs='unbounded')
+
+
+@harness('C03', params=['default', 'soft', 'hier_delim=_', 'strict'],
+         functions=['spyne.protocol.dictdoc.simple.SimpleDictDocument.simple_dict_to_object', 'spyne.protocol.dictdoc.simple._s2cmi'],
+         bounds={'doc': 'one object with three arrays of objects (two wrapped, one repeated member), each given 0..2 elements with '
+                        'symbolic one-digit indexes (contiguous from 0 under strict_arrays) and symbolic digit values'})
+def sibling_arrays(sx, cfg):
+    """several arrays of objects under one parent are independent: every element reaches its own array at its own rank"""
+    prot = PROTS[cfg]
+    d = '_' if cfg == 'hier_delim=_' else '.'
+    pairs, want = [], {}
+    for arr in ('xs', 'ys', 'zs'):
+        n = sx.choose('n_' + arr, [1, 0, 2])
+        if cfg == 'strict':
+            idx = [str(j) for j in range(n)]
+            iv = list(range(n))
+        else:
+            idx = [sx.digits('%s_i%d' % (arr, j), 1) for j in range(n)]
+            iv = [sx.digits_value(t) for t in idx]
+            if n == 2:
+                sx.assume(iv[0] < iv[1])
+        vals = [sx.digits('%s_v%d' % (arr, j), 1) for j in range(n)]
+        for j in range(n):
+            pairs.append((arr + '[' + idx[j] + ']' + d + 'v', [vals[j]]))
+        want[arr] = vals
+    if not pairs:
+        sx.outside('no array element at all')
+    out = prot.simple_dict_to_object(CTX, sx.mkdict(pairs), TwoArrays, prot.validator)
+    ok = []
+    for arr, vals in want.items():
+        got = getattr(out, arr)
+        if not vals:
+            ok.append(got is None or got == [])
+            continue
+        if got is None or len(got) != len(vals):
+            return False
+        ok += [sx.eq(g.v, sx.digits_value(v)) for g, v in zip(got, vals)]
+    return sx.And(*ok)
+
+
 class Pair(ComplexModel):
     __namespace__ = 'tns'
     one = Inner
@@ -507,3 +552,36 @@ def query_string_decoding(sx, n):
     if keys != ['first', 's', 'last']:
         return False
     return sx.And(got['first'] == ['1'], len(got['s']) == 1, sx.eq(got['s'][0], v), got['last'] == ['x=y'])
+
+
+# ---------------------------------------------------------------- declared HTTP response headers
+from spyne.protocol.http import _header_to_bytes
+from spyne.model.primitive import DateTime as _DateTime
+
+
+@harness('C03', params=['offset', 'utc', 'naive'], functions=['spyne.protocol.http._header_to_bytes'],
+         bounds={'value': 'four dates (leap day, year end, year start, mid-year: the weekday arithmetic makes a symbolic date too slow), every time of day, any UTC offset -14:00..+14:00 (symbolic minutes), UTC, or naive (taken as '
+                          'UTC); integer headers |v| <= 10^9'})
+def response_header_values(sx, tzkind):
+    """a declared response header is sent as the exact text of its value: a date-time as the RFC 1123 date of its instant
+    in GMT (symbolic part: time of day and shape; every witness: the whole date against email.utils), an integer as its
+    decimal text"""
+    v = sx.datetime('v', tz=tzkind, ymin=2023, ymax=2024)
+    y, m, d = sx.choose('date', [(2024, 2, 29), (2023, 12, 31), (2024, 1, 1), (2023, 6, 15)])
+    sx.assume(sx.And(sx.eq(v.year, y), sx.eq(v.month, m), sx.eq(v.day, d)))
+    text = _header_to_bytes(PROTS['default'], v, _DateTime)
+    sx.observe('text', text)
+    n = sx.int('n', -10 ** 9, 10 ** 9)
+    ok = [sx.eq(_header_to_bytes(PROTS['default'], n, Integer), sx.render(n))]
+    if not sx.symbolic:
+        import email.utils, datetime as _d
+        inst = v if v.tzinfo is not None else v.replace(tzinfo=_d.timezone.utc)
+        ok.append(text == email.utils.format_datetime(inst.astimezone(_d.timezone.utc).replace(microsecond=0), usegmt=True))
+        return all(ok)
+    shape = sx.matches(r'(Mon|Tue|Wed|Thu|Fri|Sat|Sun), [0-3][0-9] (Jan|Feb|Mar|Apr|May|Jun|Jul|Aug|Sep|Oct|Nov|Dec) [0-9]{4} '
+                       r'[0-2][0-9]:[0-5][0-9]:[0-5][0-9] GMT', text)
+    off = sx.offset_minutes(v) or 0
+    hh, mm, ss = sx.digits_value(text[17:19]), sx.digits_value(text[20:22]), sx.digits_value(text[23:25])
+    want = (v.hour * 60 + v.minute - off) % 1440
+    ok += [shape, sx.eq(hh * 60 + mm, want), sx.eq(ss, v.second)]
+    return sx.And(*ok)
